@@ -1652,9 +1652,7 @@ class FlowProposal(RejectionProposal):
         self.flow_config = flow_config
 
         if self.mask is not None:
-            if isinstance(self.mask, list):
-                m = np.array(self.mask)
-            self.flow_config["mask"] = m
+            self.flow_config["mask"] = np.asarray(self.mask)
 
         self.initialise(resumed=True)
 
